@@ -75,6 +75,103 @@ theorem base64_and_hex_are_rfc (d : Bytes) :
     b64encode d = Spec.Ssh.base64 d ∧ joinItems 0x3a (wrap2 (hexlify d)) = Spec.Ssh.colonHex d :=
   ⟨b64encode_eq_spec d, colonHex_eq_spec d⟩
 
+/-! ### key parameters read from the wire are re-serialised canonically
+
+`key_bytes` (what the fingerprints digest) is composed from the parsed integers.  After the repair of
+`compose_ssh_mpint` every integer — also one whose data starts with a byte `≥ 0x80` and therefore
+reads as negative, e.g. `00 00 00 01 80` — is written as the shortest two's complement, so the
+parameters of an accepted key are re-serialised byte for byte when they were canonical on the wire
+(before, `80 ..` came back as `ff 80 ..` and the fingerprint was not the digest of the wire blob),
+and shortened to the canonical form when they were not. -/
+
+theorem mpint_reserialise {data : Bytes} {v : Int} {n : Nat} (h : parseSshMpint data = .ok (v, n)) :
+    composeSshMpint v = .ok (Spec.sshMpint v) ∧ (Spec.sshMpint v).length ≤ n ∧
+      ((Spec.sshMpint v).length = n → data.take n = Spec.sshMpint v) := by
+  obtain ⟨h1, h2, h3, _⟩ := C11.ssh_mpint_recompose_canonical data v n [] h
+  exact ⟨h1, h2, h3.mp⟩
+
+/-- `ssh-rsa` parameters: whatever `e`, `n` the parser accepts (any sign, canonical or not), the
+composer writes `mpint e ‖ mpint n` in canonical form; never longer than what was read, and exactly
+what was read when the lengths agree. -/
+theorem rsa_params_reserialise (data : Bytes) (e n : Int) (m : Nat)
+    (h : parseKeyParams .rsa data = .ok (.rsa e n, m)) :
+    composeKeyParams (.rsa e n) = .ok (Spec.sshMpint e ++ Spec.sshMpint n) ∧
+    (Spec.sshMpint e ++ Spec.sshMpint n).length ≤ m ∧
+    ((Spec.sshMpint e ++ Spec.sshMpint n).length = m →
+      data.take m = Spec.sshMpint e ++ Spec.sshMpint n) := by
+  unfold parseKeyParams at h
+  simp only [bind, Except.bind] at h
+  cases h1 : parseSshMpint data with
+  | error x => rw [h1] at h; simp at h
+  | ok r1 =>
+    obtain ⟨e', n1⟩ := r1
+    rw [h1] at h
+    simp only at h
+    cases h2 : parseSshMpint (data.drop n1) with
+    | error x => rw [h2] at h; simp at h
+    | ok r2 =>
+      obtain ⟨n', n2⟩ := r2
+      rw [h2] at h
+      simp only [pure, Except.pure, Except.ok.injEq, Prod.mk.injEq, KeyParams.rsa.injEq] at h
+      obtain ⟨⟨he, hn⟩, hm⟩ := h
+      subst he hn hm
+      obtain ⟨a1, a2, a3⟩ := mpint_reserialise h1
+      obtain ⟨b1, b2, b3⟩ := mpint_reserialise h2
+      refine ⟨?_, ?_, ?_⟩
+      · simp [composeKeyParams, bind, Except.bind, a1, b1, pure, Except.pure]
+      · rw [List.length_append]; omega
+      · intro hl
+        rw [List.length_append] at hl
+        rw [List.take_add, a3 (by omega), b3 (by omega)]
+
+/-- `ssh-dss` parameters `p`, `q`, `g`, `y`: the same. -/
+theorem dss_params_reserialise (data : Bytes) (p q g y : Int) (m : Nat)
+    (h : parseKeyParams .dss data = .ok (.dss p q g y, m)) :
+    composeKeyParams (.dss p q g y) =
+      .ok (Spec.sshMpint p ++ Spec.sshMpint q ++ Spec.sshMpint g ++ Spec.sshMpint y) ∧
+    (Spec.sshMpint p ++ Spec.sshMpint q ++ Spec.sshMpint g ++ Spec.sshMpint y).length ≤ m ∧
+    ((Spec.sshMpint p ++ Spec.sshMpint q ++ Spec.sshMpint g ++ Spec.sshMpint y).length = m →
+      data.take m = Spec.sshMpint p ++ Spec.sshMpint q ++ Spec.sshMpint g ++ Spec.sshMpint y) := by
+  unfold parseKeyParams at h
+  simp only [bind, Except.bind] at h
+  cases h1 : parseSshMpint data with
+  | error x => rw [h1] at h; simp at h
+  | ok r1 =>
+    obtain ⟨p', n1⟩ := r1
+    rw [h1] at h
+    simp only at h
+    cases h2 : parseSshMpint (data.drop n1) with
+    | error x => rw [h2] at h; simp at h
+    | ok r2 =>
+      obtain ⟨q', n2⟩ := r2
+      rw [h2] at h
+      simp only at h
+      cases h3 : parseSshMpint (data.drop (n1 + n2)) with
+      | error x => rw [h3] at h; simp at h
+      | ok r3 =>
+        obtain ⟨g', n3⟩ := r3
+        rw [h3] at h
+        simp only at h
+        cases h4 : parseSshMpint (data.drop (n1 + n2 + n3)) with
+        | error x => rw [h4] at h; simp at h
+        | ok r4 =>
+          obtain ⟨y', n4⟩ := r4
+          rw [h4] at h
+          simp only [pure, Except.pure, Except.ok.injEq, Prod.mk.injEq, KeyParams.dss.injEq] at h
+          obtain ⟨⟨hp, hq, hg, hy⟩, hm⟩ := h
+          subst hp hq hg hy hm
+          obtain ⟨a1, a2, a3⟩ := mpint_reserialise h1
+          obtain ⟨b1, b2, b3⟩ := mpint_reserialise h2
+          obtain ⟨c1, c2, c3⟩ := mpint_reserialise h3
+          obtain ⟨d1, d2, d3⟩ := mpint_reserialise h4
+          refine ⟨?_, ?_, ?_⟩
+          · simp [composeKeyParams, bind, Except.bind, a1, b1, c1, d1, pure, Except.pure]
+          · simp only [List.length_append]; omega
+          · intro hl
+            simp only [List.length_append] at hl
+            rw [List.take_add, List.take_add, List.take_add, a3 (by omega), b3 (by omega), c3 (by omega),
+              d3 (by omega)]
+
 /-! ### non-vacuity -/
 
 -- RFC 4648 §10 test vectors: "" "f" "fo" "foo" "foob" "fooba" "foobar"
@@ -92,6 +189,13 @@ def sampleWire : Bytes :=
 example : (kexInitCodec.parse sampleWire).toOption.map (·.2) = some 67 := by decide +kernel
 example : Spec.Ssh.hasshPreimageOfWire sampleWire = some [0x61, 0x2c, 0x62, 0x40, 0x63, 0x3b, 0x3b, 0x3b] := by
   decide +kernel
+-- the repaired case: a modulus sent without the leading `00` (data `80 01`, read as -32767) is
+-- re-serialised as it was read (it came back as `00 00 00 03 ff 80 01`), a redundant `ff` is dropped
+example : parseKeyParams .rsa [0, 0, 0, 1, 3, 0, 0, 0, 2, 0x80, 0x01] = .ok (.rsa 3 (-32767), 11) ∧
+    composeKeyParams (.rsa 3 (-32767)) = .ok [0, 0, 0, 1, 3, 0, 0, 0, 2, 0x80, 0x01] := by decide +kernel
+example : parseKeyParams .rsa [0, 0, 0, 1, 3, 0, 0, 0, 1, 0x80] = .ok (.rsa 3 (-128), 10) ∧
+    composeKeyParams (.rsa 3 (-128)) = .ok [0, 0, 0, 1, 3, 0, 0, 0, 1, 0x80] := by decide +kernel
+example : parseKeyParams .rsa [0, 0, 0, 1, 3, 0, 0, 0, 2, 0xff, 0x80] = .ok (.rsa 3 (-128), 11) := by decide +kernel
 example : keyBytes ⟨"SshHostKeyEDDSA", 0, .eddsa [1, 2, 3]⟩ =
     .ok [0, 0, 0, 11, 115, 115, 104, 45, 101, 100, 50, 53, 53, 49, 57, 0, 0, 0, 3, 1, 2, 3] := by decide +kernel
 
